@@ -1432,6 +1432,13 @@ func (c *codegen) Visit(node ast.Node) ast.Visitor {
 				} else {
 					c.walkValue(fun.X)
 				}
+				if sel := c.typeInfo.Selections[fun]; sel != nil {
+					// The receiver of a promoted method is the embedded struct.
+					for _, i := range sel.Index()[:len(sel.Index())-1] {
+						emit.Int(c.prog.BinWriter, int64(i))
+						emit.Opcodes(c.prog.BinWriter, opcode.PICKITEM)
+					}
+				}
 				// Don't forget to add 1 extra argument when it's a method.
 				numArgs++
 			}
@@ -2986,8 +2993,15 @@ func (c *codegen) getFuncFromIdent(fun *ast.Ident) (*funcScope, bool) {
 // getFuncNameFromSelector returns fully-qualified function name from the selector expression.
 // Second return value is true iff this was a method call, not foreign package call.
 func (c *codegen) getFuncNameFromSelector(e *ast.SelectorExpr) (string, bool) {
-	if c.typeInfo.Selections[e] != nil {
+	if sel := c.typeInfo.Selections[e]; sel != nil {
 		typ := c.typeInfo.Types[e.X].Type.String()
+		if fn, ok := sel.Obj().(*types.Func); ok && len(sel.Index()) > 1 {
+			// A method promoted from an embedded struct is declared (and
+			// registered) with the type of the embedded field.
+			if recv := fn.Type().(*types.Signature).Recv(); recv != nil {
+				typ = recv.Type().String()
+			}
+		}
 		name := c.getIdentName(typ, e.Sel.Name)
 		if name[0] == '*' {
 			name = name[1:]
